@@ -22,8 +22,15 @@ VERIF = os.path.dirname(os.path.dirname(os.path.abspath(__file__)))
 REPO = os.environ.get("VERIF_REPO", "/repo")
 CACHE = os.path.join(VERIF, ".cache")
 COQ = os.path.join(VERIF, "coq")
-HARNESS = os.path.join(VERIF, "harness")
-TARGET = os.path.join(CACHE, "target")
+HARNESS_SRC = os.path.join(VERIF, "harness")
+if REPO == "/repo":
+    HARNESS = HARNESS_SRC
+    TARGET = os.path.join(CACHE, "target")
+else:
+    # scratch copy of the repository (seeded-change experiments): separate harness copy + target dir
+    _tag = hashlib.sha1(REPO.encode()).hexdigest()[:8]
+    HARNESS = os.path.join(CACHE, "harness_" + _tag)
+    TARGET = os.path.join(CACHE, "target_" + _tag)
 BIN = os.path.join(TARGET, "debug")
 EVIDENCE = os.path.join(VERIF, "evidence")
 REPLAYS = os.path.join(VERIF, "replays")
@@ -130,12 +137,26 @@ class SplitMix64:
 
 def cargo_env():
     return {"RUSTFLAGS": RUSTFLAGS, "CARGO_NET_OFFLINE": "true", "CARGO_TERM_COLOR": "never",
-            "CARGO_TARGET_DIR": TARGET}
+            "CARGO_TARGET_DIR": TARGET, "VERIF_REPO": REPO}
+
+
+def _sync_harness_copy():
+    """VERIF_REPO=/some/copy: mirror harness/ with the path dependency pointing at the copy."""
+    if HARNESS == HARNESS_SRC:
+        return
+    os.makedirs(HARNESS, exist_ok=True)
+    run(["rsync", "-a", "--delete", "--exclude", "target", "--exclude", "Cargo.lock", "--exclude", "Cargo.toml",
+         HARNESS_SRC + "/", HARNESS + "/"], check=True)
+    toml = open(os.path.join(HARNESS_SRC, "Cargo.toml")).read().replace('path = "/repo/fclones"', 'path = "%s/fclones"' % REPO)
+    dst = os.path.join(HARNESS, "Cargo.toml")
+    if not os.path.exists(dst) or open(dst).read() != toml:
+        open(dst, "w").write(toml)
 
 
 def build_harness(bins=None, timeout=1800):
     """(Re)build the harness crate against /repo's current working tree, hooks on."""
-    with flock("cargo"):
+    with flock("cargo" + os.path.basename(TARGET)):
+        _sync_harness_copy()
         lock_src = os.path.join(REPO, "Cargo.lock")
         lock_dst = os.path.join(HARNESS, "Cargo.lock")
         if os.path.exists(lock_src) and not os.path.exists(lock_dst):
@@ -152,7 +173,7 @@ def build_harness(bins=None, timeout=1800):
 
 def build_fclones(timeout=1800):
     """Build the fclones binary from /repo's current working tree with the hooks enabled."""
-    with flock("cargo"):
+    with flock("cargo" + os.path.basename(TARGET)):
         cmd = ["cargo", "build", "--offline", "--manifest-path", os.path.join(REPO, "fclones", "Cargo.toml"),
                "--bin", "fclones"]
         p = run(cmd, env=cargo_env(), timeout=timeout)
@@ -179,6 +200,10 @@ def coq_make(targets, timeout=1500):
     with flock("coq"):
         mk = os.path.join(COQ, "Makefile")
         cp = os.path.join(COQ, "_CoqProject")
+        # _CoqProject lists every .v file of coq/ (dependency order is coqdep's business)
+        want = "-Q . FV\n" + "".join(f + "\n" for f in coq_sources())
+        if not os.path.exists(cp) or open(cp).read() != want:
+            open(cp, "w").write(want)
         if not os.path.exists(mk) or os.path.getmtime(mk) < os.path.getmtime(cp):
             run(["coq_makefile", "-f", "_CoqProject", "-o", "Makefile"], cwd=COQ, check=True)
         os.makedirs(os.path.join(COQ, "extracted"), exist_ok=True)
@@ -189,6 +214,10 @@ def coq_make(targets, timeout=1500):
 def build_model(engine, timeout=600):
     """Extract engine <engine> (coq/Extract_<engine>.v -> coq/extracted/ex_<engine>.ml) and link it with
     coq/driver/drvlib.ml + coq/driver/drv_<engine>.ml into .cache/model_<engine>."""
+    ex_path = os.path.join(COQ, "extracted", "ex_%s.ml" % engine)
+    vo = os.path.join(COQ, "Extract_%s.vo" % engine)
+    if not os.path.exists(ex_path) and os.path.exists(vo):
+        os.remove(vo)
     p = coq_make(["Extract_%s.vo" % engine])
     if p.returncode != 0:
         raise BuildError("coq build of Extract_%s failed:\n%s" % (engine, (p.stdout + p.stderr)[-6000:]))
@@ -382,10 +411,17 @@ def coq_obligations(prop, extra_targets=(), thorough=False):
 # known findings
 
 def load_known():
+    """known_findings.json plus the per-engine files known_findings.d/*.json (same format); read-only."""
+    out = []
     p = os.path.join(VERIF, "known_findings.json")
-    if not os.path.exists(p):
-        return []
-    return json.load(open(p)).get("findings", [])
+    if os.path.exists(p):
+        out += json.load(open(p)).get("findings", [])
+    d = os.path.join(VERIF, "known_findings.d")
+    if os.path.isdir(d):
+        for f in sorted(os.listdir(d)):
+            if f.endswith(".json"):
+                out += json.load(open(os.path.join(d, f))).get("findings", [])
+    return out
 
 
 def sig_matches(pattern, sig):
